@@ -5,6 +5,7 @@ import (
 	"go/constant"
 	"go/token"
 	"go/types"
+	"strings"
 
 	"golang.org/x/tools/go/ssa"
 )
@@ -643,7 +644,7 @@ func (ex *Exec) rangeIter(x value, t types.Type) value {
 			it.keys = append([]value{}, a.keys...)
 			it.vals = append([]value{}, a.vals...)
 			// symbolic choice of iteration order for small maps (Go's order is unspecified)
-			if n := len(it.keys); n >= 2 && n <= ex.job.MapPermMax {
+			if n := len(it.keys); n >= 2 && n <= ex.job.MapPermMax && ex.permHere() {
 				perms := permutations(n)
 				conds := make([]*Term, len(perms))
 				name := ex.freshName("maporder")
@@ -1014,4 +1015,18 @@ func (ex *Exec) zeroLike(v value) value {
 		return iface{}
 	}
 	panic(unsupported{"clear on slice of this element kind"})
+}
+
+// permHere reports whether the iteration order of the current range is symbolic: always,
+// unless the job restricts it to the functions named in MapPermFns.
+func (ex *Exec) permHere() bool {
+	if len(ex.job.MapPermFns) == 0 {
+		return true
+	}
+	for _, f := range ex.job.MapPermFns {
+		if strings.Contains(ex.rangeFn, f) {
+			return true
+		}
+	}
+	return false
 }
